@@ -191,7 +191,7 @@ def _run_section(args):
     rec = Recorder(pid, name)
     t0 = time.time()
     try:
-        _alarm(int(os.environ.get("SYMX_SECTION_TIMEOUT", "1500")))
+        _alarm(int(os.environ.get("SYMX_SECTION_TIMEOUT", "700")))
         mod = __import__(modname, fromlist=[fname])
         getattr(mod, fname)(rec, **kwargs)
         import signal
